@@ -193,6 +193,10 @@ class mapper(object):
         n = self.__map.lastw
         try:
             i = K.index(k.a)
+            if self.__map[k.a].size < k.size:
+                # k is wider than the last write at this address: that write
+                # does not cover it, so earlier writes matter as well
+                i = -1
         except ValueError:
             # k has never been written to explicitly
             # but it is maybe in a zone that was written to
